@@ -1,6 +1,7 @@
 package vc
 
 import (
+	"go/ast"
 	"fmt"
 	"go/constant"
 	"go/types"
@@ -294,6 +295,19 @@ func (x *Exec) specIdent(sc *specScope, name string, hint types.Type) Value {
 	}
 	if g, ok := x.ghostVars[name]; ok {
 		return g(sc)
+	}
+	// a local variable of the function that this path never assigned (e.g. named in an ensures clause and
+	// the path returned early): an unconstrained value -- the clause must then hold whatever it is
+	if sc.fr != nil && sc.fr.fn != nil {
+		for _, b := range sc.fr.fn.Blocks {
+			for _, ins := range b.Instrs {
+				if d, ok := ins.(*ssa.DebugRef); ok {
+					if id, ok := d.Expr.(*ast.Ident); ok && id.Name == name && !d.IsAddr {
+						return x.freshValue(sc.st, "unbound_"+name, d.X.Type())
+					}
+				}
+			}
+		}
 	}
 	unsup("spec: unknown identifier %q in %s", name, x.topName)
 	return Value{}
@@ -659,6 +673,19 @@ func (x *Exec) specCall(sc *specScope, n *ECall, hint types.Type) Value {
 		v := x.evalSpec0(sc, n.Args[0], nil)
 		return scalar(types.Typ[types.Int64], SignExt(v.L[0], 64))
 	}
+	// string(bytes): the same uninterpreted conversion as in code
+	if n.Fun == "string" && len(n.Args) == 1 {
+		v := x.evalSpec0(sc, n.Args[0], nil)
+		if isSliceT(v.T) {
+			x.needStrAxioms()
+			p := sl(v)
+			arr := Select(x.comp(sc.st, "arr:uint8", types.Typ[types.Uint8], 0), p.base)
+			return scalar(types.Typ[types.String], Apply("str.of", SStr, arr, p.off, p.ln))
+		}
+		if isString(v.T) {
+			return v
+		}
+	}
 	// conversions
 	if T := x.basicType(n.Fun); T != nil && len(n.Args) == 1 && isInteger(T) {
 		v := x.evalSpec0(sc, n.Args[0], T)
@@ -689,6 +716,34 @@ func (x *Exec) specCall(sc *specScope, n *ECall, hint types.Type) Value {
 			}
 			if len(sf.Params) != len(n.Args) {
 				unsup("spec: %s expects %d arguments", n.Fun, len(sf.Params))
+			}
+			if sf.Body == nil {
+				// uninterpreted: one SMT function over the flattened arguments
+				rt := x.specType(sc, sf.Ret)
+				if rt == nil {
+					unsup("spec: %s: unknown result type %s", n.Fun, sf.Ret)
+				}
+				rls := x.c.leaves(rt)
+				if len(rls) != 1 {
+					unsup("spec: uninterpreted %s must have a scalar result", n.Fun)
+				}
+				var as []*Term
+				var sorts []Sort
+				for i, p := range sf.Params {
+					pt := x.specType(sc, p.Type)
+					if pt == nil {
+						unsup("spec: %s: unknown parameter type %s", n.Fun, p.Type)
+					}
+					av := x.evalSpec0(sc, n.Args[i], pt)
+					for _, t := range av.L {
+						as = append(as, t)
+						sorts = append(sorts, t.S)
+					}
+				}
+				name := "uf_" + sanitize(n.Fun)
+				x.c.declFun(name, sorts, rls[0].S)
+				x.c.note("uninterpreted specification function %s: only what trusted contracts state about it is known", n.Fun)
+				return Value{T: rt, L: []*Term{Apply(name, rls[0].S, as...)}}
 			}
 			nsc := &specScope{x: x, fr: sc.fr, st: sc.st, old: sc.old, results: nil, bound: map[string]Value{}, depth: sc.depth + 1}
 			for i, p := range sf.Params {
